@@ -30,6 +30,7 @@ structure EInv (e : Erat) (P : ℕ → Prop) : Prop where
   low_lt : e.segmentLow + 7 ≤ e.stop
   size_pos : 1 ≤ e.sieve.size
   size_le : e.sieve.size ≤ 2 ^ 23
+  size_mod8 : e.sieve.size % 8 = 0
   high_le : e.segmentHigh ≤ e.stop
   high_nl : e.segmentHigh < e.stop → e.segmentHigh = e.segmentLow + e.sieve.size * 30 + 6
   high_ub : e.segmentHigh ≤ e.segmentLow + 30 * e.sieve.size + 6
@@ -48,6 +49,11 @@ structure EInv (e : Erat) (P : ℕ → Prop) : Prop where
   big_sound : ∀ q u, BigHas e.segmentLow e.log2 e.big q u → q ≤ u
   lists : ∃ gsS gsM, ListInv e.segmentLow e.small gsS ∧ ListInv e.segmentLow e.medium gsM ∧
     Cover e.segmentLow e.log2 e.stop e.big gsS gsM P
+
+/-- the content of a sieved segment with low `L`: bit `p` is set iff its number is a prime of `[start, stop]` -/
+def SegOk (start stop L : ℕ) (s : Bytes) : Prop :=
+  (∀ i, s.getD i 0 < 256) ∧
+  ∀ p, bitAt s p = true ↔ (p < 8 * s.size ∧ Nat.Prime (numOf L p) ∧ start ≤ numOf L p ∧ numOf L p ≤ stop)
 
 theorem init30_dist_le : ∀ r < 30, ((expectedInit 30).getD r (0, 0)).1 ≤ 6 := by decide +kernel
 
